@@ -125,7 +125,9 @@ pub fn stop_case(rng: &mut Rng, out: &mut Out, invalid_utf8: bool) {
             if w.is_empty() {
                 d.extend_from_slice(b"<>");
             } else if w[0] == 0xFF {
-                d.extend_from_slice(&w[1..]);
+                // a special token is an atom of its own: inside a character it breaks the character
+                // (the byte-0xFF token has an empty name, so stand a placeholder in for it)
+                d.extend_from_slice(if w.len() == 1 { b"?" } else { &w[1..] });
             } else {
                 d.extend_from_slice(w);
             }
